@@ -336,4 +336,22 @@ def numListSchema (t : NumType) (rg : NumRange) : List RawNum → Option (List N
     | some v, some vs => some (v :: vs)
     | _, _ => none
 
+/-! ### option lists  (`Setting._setSchema`, `Setting.addOptions`, `setting.Option` contributed by plugins) -/
+
+/-- `Setting._setSchema` for a setting without a custom schema: `vol.In(options)` when the setting enforces its options AND
+the list is non-empty at the time the schema is derived, otherwise the type coercion `fallback` (`vol.Coerce(type(default))`,
+a parameter); `none` = `vol.Invalid` -/
+def optSchema [DecidableEq V] (enforced : Bool) (options : List V) (fallback : V → Option V) (raw : V) : Option V :=
+  if enforced && !options.isEmpty then (if options.contains raw then some raw else none) else fallback raw
+
+/-- `Setting.addOptions`: `self.options.extend(...)` followed by `_setSchema()` — the schema is re-derived from the CURRENT
+list, so the next assignment is judged by `optSchema enforced (addOptions options new)` -/
+def addOptions (options new : List V) : List V := options ++ new
+
+/-- a schema derived ONCE from the list as it was and never re-derived (what is left when `addOptions` forgets `_setSchema`):
+`vol.In` shares the list object, so additions are seen only if the list was non-empty when the schema was built -/
+def staleOptSchema [DecidableEq V] (enforced : Bool) (atDerivation current : List V) (fallback : V → Option V) (raw : V) :
+    Option V :=
+  if enforced && !atDerivation.isEmpty then (if current.contains raw then some raw else none) else fallback raw
+
 end ArmiVerif.Settings
